@@ -7,7 +7,7 @@ use crate::common::ArgOption;
 use crate::common::{debug, error, info, warn};
 use boa_engine::context::ContextBuilder;
 use boa_engine::object::builtins::{JsArray, JsMap};
-use boa_engine::object::ObjectInitializer;
+use boa_engine::object::{IntegrityLevel, ObjectInitializer};
 use boa_engine::property::{Attribute, PropertyDescriptor, PropertyKey};
 use boa_engine::value::Type;
 use boa_engine::{js_string, native_function::NativeFunction, Context, JsBigInt, JsError, JsValue, Source};
@@ -99,6 +99,21 @@ fn data_value_to_js(data: &Data, context: &mut Context) -> JsValue {
         }
         Data::Error(_error) => JsValue::Null,
         Data::Source(source) => JsValue::String(js_string!(source.source.clone())),
+    }
+}
+
+/// Freezes an object together with everything reachable through its own properties.\
+/// System variables are read-only in depth, not only at their top level.
+fn deep_freeze(value: &JsValue, context: &mut Context) {
+    if let Some(obj) = value.as_object() {
+        if let Ok(keys) = obj.own_property_keys(context) {
+            for key in keys {
+                if let Ok(v) = obj.get(key, context) {
+                    deep_freeze(&v, context);
+                }
+            }
+        }
+        let _ = obj.set_integrity_level(IntegrityLevel::Frozen, context);
     }
 }
 
@@ -483,6 +498,7 @@ impl Datamodel for ECMAScriptDatamodel {
                 _ = processor_js.create_data_property(js_string!("location"), location, ctx);
                 _ = io_processors_js.create_data_property(js_string!(name.as_str()), processor_js, ctx);
             }
+            deep_freeze(&JsValue::from(io_processors_js.clone()), ctx);
             let r = self.context.global_object().define_property_or_throw(
                 js_string!(SYS_IO_PROCESSORS),
                 PropertyDescriptor::builder()
@@ -639,6 +655,7 @@ impl Datamodel for ECMAScriptDatamodel {
         );
 
         let event_object = event_object_initializer.build();
+        deep_freeze(&JsValue::from(event_object.clone()), &mut self.context);
         let r = self
             .context
             .global_object()
